@@ -67,7 +67,25 @@ def c11 (op : String) (j : Json) : Option (R Json) :=
         -- the moduli are the output counts (known once the mesh-level call succeeded)
         match meshIfftn f.mesh true shape with
         | .error e => pure (errJ e)
-        | .ok k => pure (resJ (cfToJson k.n) (irfftn (Poly.conj k.n) (Poly.roots k.n) f shape))
+        | .ok k => pure (resJ (cfToJson k.n) (irfftnNP (Poly.conj k.n) Poly.half (Poly.roots k.n) f shape))
+      | _ => throw s!"unknown kind {kind}"
+  | "chain" => some do
+      -- forward ∘ inverse on a k-space field, both steps in the model (symbolic all the way)
+      let f ← cfOfJson (← fld j "field")
+      let kind ← strOfJson (← fld j "kind")
+      match kind with
+      | "ifftn_fftn" =>
+        match ifftn (Poly.roots f.data.shape) f with
+        | .error e => pure (errJ e)
+        | .ok h => pure (resJ (cfToJson f.data.shape) (fftn (Poly.roots f.data.shape) h))
+      | "irfftn_rfftn" =>
+        let shape ← optShape j
+        match meshIfftn f.mesh true shape with
+        | .error e => pure (errJ e)
+        | .ok k =>
+          match irfftnNP (Poly.conj k.n) Poly.half (Poly.roots k.n) f shape with
+          | .error e => pure (errJ e)
+          | .ok h => pure (resJ (cfToJson k.n) (rfftn (Poly.roots k.n) h))
       | _ => throw s!"unknown kind {kind}"
   | _ => none
 
